@@ -9,6 +9,7 @@ use rustic_cdc::Rabin64;
 
 use crate::{
     RusticResult,
+    error::{ErrorKind, RusticError},
     repofile::{ConfigFile, configfile::Chunker},
 };
 
@@ -37,11 +38,19 @@ impl<R: Read + Send> ChunkIter<R> {
                     size_hint,
                 )?))
             }
-            Chunker::FixedSize => Self::FixedSize(FixedSizeChunkIter::new(
-                config.chunk_size(),
-                reader,
-                size_hint,
-            )),
+            Chunker::FixedSize => {
+                if config.chunk_size() == 0 {
+                    return Err(RusticError::new(
+                        ErrorKind::Unsupported,
+                        "Chunk size must not be 0 for the fixed size chunker.",
+                    ));
+                }
+                Self::FixedSize(FixedSizeChunkIter::new(
+                    config.chunk_size(),
+                    reader,
+                    size_hint,
+                ))
+            }
         };
         Ok(iter)
     }
